@@ -4,6 +4,7 @@ import DriverLib.Trust
 import DriverLib.Envelope
 import DriverLib.EnvState
 import DriverLib.Sign
+import DriverLib.Fetcher
 /-!
   Line-protocol driver: one JSON case per line on stdin, one JSON answer per line on stdout.
   `{"id":…, "k":<handler>, "in":{…}}`  ↦  `{"id":…, "out":{…}}` or `{"id":…, "error":"…"}`.
@@ -18,6 +19,7 @@ def dispatch (prop k : String) (i impl : Json) : E Json :=
   | "trust" => handleTrust i
   | "envstate" => handleEnvState i
   | "sign" => handleSign prop i impl
+  | "fetch" => handleFetch i impl
   | "jwsread" => handleJwsRead prop i impl
   | "coseread" => handleCoseRead prop i impl
   | "noop" => do
